@@ -442,6 +442,12 @@ def steady_state(
         | (2, 4) | 0.5  |   2 |
 
     """
+    # Results are positional here, so equal row labels are fine - unless a cache is
+    # used: its files are named after the label, so the second row under a label
+    # would be answered with the first row's result
+    if cache is not None:
+        _require_unique_index(to_scan)
+
     if y0 is not None:
         model.update_variables(y0)
 
